@@ -972,6 +972,7 @@ func init() {
 			{"C03-LOCK", ruleCacheLock("C03-LOCK")},
 			{"C03-POOL", ruleC03Pool},
 			{"C10-RESET", ruleC10Reset},
+			{"C10-FRESH", ruleC10Fresh},
 			{"PHASE", rulePhase("PHASE")},
 		},
 	})
